@@ -34,6 +34,7 @@ fn main() {
         "rng" => suites::rng::drive(&mut t, &tier, seed, false),
         "rngchild" => suites::rng::drive(&mut t, &tier, seed, true),
         "sm2codec" => suites::sm2::drive_codec(&mut t, &tier, seed),
+        "sm2ec" => suites::sm2::drive_ec(&mut t, &tier, seed),
         "sm4blk" => suites::sm4::drive_block(&mut t, &tier, seed, plan),
         "sm4mode" => suites::sm4::drive_modes(&mut t, &tier, seed),
         _ => {
